@@ -759,6 +759,9 @@ fn gen_open_flags(repo: &Path, s: &mut String) -> Res<()> {
     let mut access = None;
     let mut creation = None;
     let mut open_impl = None;
+    let mut custom_fn = None;
+    let mut mode_fn = None;
+    let mut new_fn = None;
     for it in &file.items {
         let syn::Item::Impl(im) = it else { continue };
         if nospace(&im.self_ty) != "OpenOptions" {
@@ -770,6 +773,9 @@ fn gen_open_flags(repo: &Path, s: &mut String) -> Res<()> {
                 "get_access_mode" => access = Some(f.clone()),
                 "get_creation_mode" => creation = Some(f.clone()),
                 "open_impl" => open_impl = Some(f.clone()),
+                "custom_flags" => custom_fn = Some(f.clone()),
+                "mode" => mode_fn = Some(f.clone()),
+                "new" => new_fn = Some(f.clone()),
                 _ => {}
             }
         }
@@ -820,6 +826,61 @@ fn gen_open_flags(repo: &Path, s: &mut String) -> Res<()> {
     }
     s.push_str("/-- `open_impl`: `OFlags::CLOEXEC | self.get_access_mode()? | self.get_creation_mode()? | self.custom_flags`\n    (custom flags empty) -/\n");
     s.push_str("def openFlags (r w t c n : Bool) : Res :=\n  match accessMode r w t c n with\n  | none => none\n  | some a =>\n    match creationMode r w t c n with\n    | none => none\n    | some m => some (.CLOEXEC :: a ++ m)\n\n");
+    // --- custom_flags / mode -------------------------------------------------------------------
+    // `custom_flags(&mut self, flags: i32)`: `self.custom_flags = OFlags::from_bits_retain(flags as _)` followed
+    // by a chain of `.difference(OFlags::MASK)`; the masks are what is removed from the caller's flags.
+    let custom_fn = custom_fn.ok_or("open flags: custom_flags not found")?;
+    if custom_fn.block.stmts.len() != 1 {
+        return Err("open flags: custom_flags: expected a single statement".into());
+    }
+    let syn::Stmt::Expr(syn::Expr::Assign(asg), _) = &custom_fn.block.stmts[0] else {
+        return Err(format!("open flags: custom_flags: expected an assignment, found {}", tokens(&custom_fn.block.stmts[0])));
+    };
+    if nospace(&asg.left) != "self.custom_flags" {
+        return Err(format!("open flags: custom_flags assigns to {}", nospace(&asg.left)));
+    }
+    let mut masks = vec![];
+    let mut cur: &syn::Expr = &asg.right;
+    loop {
+        match cur {
+            syn::Expr::MethodCall(m) if m.method == "difference" && m.args.len() == 1 => {
+                let a = nospace(&m.args[0]);
+                let name = a.strip_prefix("OFlags::").ok_or(format!("open flags: custom_flags: unsupported mask {a}"))?;
+                if name != "ACCMODE" {
+                    return Err(format!("open flags: custom_flags: unknown mask {name}"));
+                }
+                masks.push(name.to_string());
+                cur = &m.receiver;
+            }
+            other => {
+                let t = nospace(other);
+                if t != "OFlags::from_bits_retain(flagsas_)" {
+                    return Err(format!("open flags: custom_flags: unrecognised expression {t}"));
+                }
+                break;
+            }
+        }
+    }
+    masks.reverse();
+    let mode_fn = mode_fn.ok_or("open flags: mode not found")?;
+    let mode_body: String = mode_fn.block.stmts.iter().map(nospace).collect();
+    if mode_body != "self.mode=Mode::from_bits_retain(modeas_);" {
+        return Err(format!("open flags: mode(): unrecognised body `{mode_body}`"));
+    }
+    let new_fn = new_fn.ok_or("open flags: new not found")?;
+    let new_body: String = new_fn.block.stmts.iter().map(nospace).collect();
+    let expected_new = "OpenOptions{read:false,write:false,truncate:false,create:false,create_new:false,custom_flags:OFlags::empty(),mode:Mode::from_bits_retain(0o666),}";
+    if new_body != expected_new {
+        return Err(format!("open flags: new(): unrecognised body `{new_body}`"));
+    }
+    s.push_str("/-- a set of bits `OpenOptions::custom_flags` removes from the caller's flags (`.difference(OFlags::..)`) -/\ninductive Mask where\n  | ACCMODE\n  deriving DecidableEq, Repr\n\n");
+    writeln!(
+        s,
+        "/-- `custom_flags(flags)`: `OFlags::from_bits_retain(flags)` minus these masks, in order -/\ndef customMasks : List Mask := [{}]\n",
+        masks.iter().map(|m| format!(".{m}")).collect::<Vec<_>>().join(", ")
+    )
+    .unwrap();
+    s.push_str("/-- `OpenOptions::new()`: no custom flags, all booleans false, this creation mode; `mode(m)` stores `m` unchanged -/\ndef defaultMode : Nat := 0o666\n\n");
     s.push_str("end Compio.Gen.OpenFlags\n");
     Ok(())
 }
